@@ -111,6 +111,25 @@ CHECKS = {
              "behind a waiting writer) is exercised, not specified",
         technique="Lean 4 inductive invariant over an acceptor of hook/API event traces + deterministic simulation of the real runtime",
         design="§5 C06"),
+    "C07": dict(
+        text="Lean 4 refinement theorem for the ring queues' sequential semantics: with head/tail claim counters and slots addressed by "
+             "counter mod capacity, for every capacity and every sequence of push/pop operations (any number of laps around the ring) the "
+             "results equal those of a FIFO list bounded by the capacity and the ring content is that list - push appends and fails exactly "
+             "when capacity elements are queued, pop removes the oldest and fails exactly when empty, the queue never holds more than its "
+             "capacity (one-step refinement + induction over the operation list). The model (incl. push_batch/pop_batch) is tied to the code "
+             "by single-threaded op sequences on the real Flex MPMC, batch-MPMC and SPSC queues (capacity requests 0..9) compared op by op. "
+             "For concurrent use a Lean acceptor validates what consumers received in real runs: every element was sent, is received at most "
+             "once, comes later in its producer's order than what that consumer already has from that producer, and in the end all were "
+             "received - on 1..4 producer and consumer OS threads with push/pop and send/recv, and on RingChannel with consumers blocked in "
+             "recv() on their own vCPUs and paced producers, where the per-element latency exposes a lost notification",
+        note="trusted: Lean kernel + 3 standard axioms; PARTIAL: there is NO theorem over the interleavings of the atomic steps of concurrent "
+             "producers/consumers (turn marks, CAS loops, the batch queue's publication frontiers, the Dekker fence of RingChannel): for these "
+             "the claim rests on run-time validation of real races by the acceptor (found only with some probability); read_available() of the "
+             "MPMC queue counts claimed tickets and may exceed the capacity under blocking send() by design - the capacity clause is checked for "
+             "push/pop only; a lost RingChannel notification is detected as a latency >= 50 ms (the 100 ms periodic re-check hides it otherwise); "
+             "SendBackoff (producer blocked on a full channel) is exercised but its latency is not measured",
+        technique="Lean 4 refinement proof over an executable model + op-sequence correspondence + run-time trace validation of concurrent runs",
+        design="§5 C07"),
     "C08": dict(
         text="Lean 4 theorems about a task automaton that the stamped event log of real WorkPool runs must be accepted by: by induction over all "
              "accepted histories every task body is entered at most once and every async task object is deleted at most once; a task runs only "
